@@ -29,6 +29,17 @@ CLAIMS = {
              'tree (CBZ imm32 scale, PUSH T2 UnalignedAllowed) are known findings.'),
 }
 
+CLAIMS['C05'] = dict(
+    category='proof', design_ref='DESIGN.md section 4 (C05)',
+    technique='truth-table extraction of ConditionPassed/CurrentCond by bit-vector abstract interpretation + guard '
+              'dominance over all execute() bodies (structured effect walk)',
+    text='Decided essentially completely: the 16x16 condition table and the CurrentCond decision table are extracted '
+         'from source and equal the architectural tables; every effect of every one of the 273 execute() bodies is '
+         'dominated by a positive condition_passed() test (a property of all paths, hence all operands/flags), except '
+         'the architecturally unconditional instructions bound through the reference encodings.',
+    note='Trusted: CPython ast; sa/reftables.py (condition table, unconditional list); the closed effect vocabulary of '
+         'sa/flow.py with effect summaries of ArmV6/Registers methods (unknown calls count as effects).')
+
 PENDING = 'checker not armed yet in this session (under construction); nothing is claimed for it until its rules run clean'
 
 checks = []
